@@ -46,7 +46,7 @@ def generate(tier, seed):
             dist["adapters"][ak] = dist["adapters"].get(ak, 0) + 1
             pre = ["ES:0"] if rnd.random() < 0.3 else []
             n = rnd.choice([5, 10, 20, 40, 80, 200]) if tier != "quick" else rnd.choice([5, 10, 20, 40])
-            ops = [rnd.choice(al) for _ in range(n)]
+            ops = [pick_op(rnd, al, dom) for _ in range(n)]
             b = n // 20 * 20
             dist["random_len_by_20"][b] = dist["random_len_by_20"].get(b, 0) + 1
             cases.append(build_case(sp, ad, pre, ops, dom, views_every=(n <= 10)))
